@@ -480,6 +480,13 @@ def check_run(ctx: Any, rig: Rig, prog: list[dict[str, Any]], cfg: Config, debug
             if t["records"] != 1:
                 ctx.fail({**case, "call": i}, f"C34:once:http:post:{t['records']}-records", f"POST {t['url']} wrote {t['records']} records")
     ctx.tag(*(f"records-per-call:{min(len(s['records']), 6)}" for s in split))
+    for x in lines:
+        if x["status"] == "error":
+            m = x.get("error_message") or ""
+            ctx.tag("error-record:" + ("overshoot" if is_overshoot(m) else "long(>500)" if len(m) > 500 else
+                                       "multi-line" if "\n" in m else "class-name-fallback" if m == x["error_type"] else "short"))
+        if x.get("cancelled"):
+            ctx.tag("cancel-record")
 
     # ---------------------------------------------------------------- O: valid (default cap and small caps)
     for j, (rec, line) in enumerate(zip(recs, lines)):
@@ -490,6 +497,7 @@ def check_run(ctx: Any, rig: Rig, prog: list[dict[str, Any]], cfg: Config, debug
                 ctx.fail({**case, "record": j, "cap": cap}, f"C34:schema:{path}:{word}:{'sentinel' if obj.get('truncated') == 'record_too_large' else 'full'}",
                          f"record {j} of {cfg.label()} (max_record_bytes={cap}) fails access_log.schema.json at {path}: {msg[:200]} — {short(slim(obj))}")
             if cap != DEFAULT_CAP:
+                ctx.tag(f"small-cap-stage:{obj.get('truncated', 'fits')}")
                 check_formatted_keeps(ctx, {**case, "record": j, "cap": cap}, line, obj)
 
     # ---------------------------------------------------------------- O: status / stream_id / message per call
@@ -910,7 +918,7 @@ def run(ctx: Any) -> None:
             check_run(ctx, rig, prog, Config("pipe"), debug=True, small_caps=[400])
             check_run(ctx, rig, prog, Config("http", None, "zstd"), debug=True, small_caps=[400, 3000])
         thorough = ctx.tier == "thorough"
-        for n in range(ctx.budget(14, 260)):
+        for n in range(ctx.budget(22, 500)):
             prog = gen_program(rng, big=thorough or n % 5 == 0)
             for cfg in configs(rng, "all" if thorough else "some"):
                 check_run(ctx, rig, prog, cfg, debug=rng.random() < 0.35, small_caps=[rng.choice([250, 400, 650, 1000, 2500])])
@@ -919,10 +927,10 @@ def run(ctx: Any) -> None:
         # formatter on a spread of records / caps / variants
         if rig.cap.records:
             pool = list(rig.cap.records)
-            for _ in range(ctx.budget(40, 600)):
+            for _ in range(ctx.budget(40, 1500)):
                 check_formatter(ctx, rng.choice(pool), rng.choice([100, 200, 320, 450, 600, 800, 1100, 1500, 4000]),
                                 rng.choice(["plain", "claims", "data", "both"]))
-        k_schema(ctx, ctx.budget(400, 6000))
+        k_schema(ctx, ctx.budget(400, 20000))
     finally:
         rig.close()
 
